@@ -108,6 +108,13 @@ def real_pipeline(rng, oc):
                         from zorg.service import swog
                         Z.fresh_process()
                         with quiet_():
+                            if i % 2 == 0:
+                                # the page was refreshed before with a query that selects MORE: what it showed then must be gone
+                                zq.write_text("# S note W (o | x | - | ~ | < | >) O alpha G none\n")
+                                swog.refresh_zoq_file(Path(d), Z.db_url(d), zq)
+                                body = zq.read_text()
+                                zq.write_text("# %s\n" % q + body.split("\n", 1)[1] if "\n" in body else "# %s\n" % q)
+                                Z.fresh_process()
                             swog.refresh_zoq_file(Path(d), Z.db_url(d), zq)
                         # the page as written has no final newline (a page-level matter the property does not speak of,
                         # and zorg never compiles *.zoq pages itself): the rendered selection is judged with one
@@ -178,6 +185,44 @@ def theorem_tie(eng, rng, oc, n):
             oc.corr_mismatch.append(("Note.to_string vs render_item (emit_form it)", case, emitted, want))
             return False
         oc.count("theorem_items")
+    return True
+
+
+def results_tie(eng, rng, oc, n):
+    """(e) the domain of C12_results_page_text: a page of abstract items that carry ZIDs is indexed by the real `db create`;
+    the real `S note ... O none G none` output must be the items' text forms (render_item (emit_form it)), one per
+    line, in file order - the text the theorem says compiles back to exactly those notes."""
+    from freezegun import freeze_time
+    from harness import apage, zdir as Z
+    from harness.implrun import write_tree
+    uid = [0]
+    for k in range(n):
+        its, seen = [], set()
+        while len(its) < rng.randint(1, 7):
+            it = apage.gen_item(rng, uid)
+            z = it[2][-1] if it[2][0] in ("zid", "modzid") else None
+            if z and z not in seen and eng.call("item_tidy", it) == "t":
+                seen.add(z)
+                its.append(it)
+        text = "# results tie\n\n" + "".join(apage.render_item(it) + "\n" for it in its) + "\n"
+        want = "\n".join(eng.call("item_emit", it) for it in its)
+        oc.evaluations += 1
+        with Z.tmpdir("c12e_") as d:
+            write_tree(d, {"p.zo": text})
+            with freeze_time(dt.datetime(TODAY[0], TODAY[1], TODAY[2], 12)):
+                try:
+                    Z.db_create(d)
+                    got = Z.execute(d, "S note W (o | x | - | ~ | < | >) O none G none")
+                except Exception as e:  # noqa: BLE001
+                    oc.spec_fail.append(({"page_text": text}, "%s raised" % type(e).__name__, "db create and the query succeed", None))
+                    return False
+        if got.strip("\n") != want:
+            diff = [(a, b) for a, b in zip(want.split("\n"), got.strip("\n").split("\n")) if a != b][:2]
+            oc.spec_fail.append(({"page_text": text}, {"lines[theorem, query output]": diff, "n": [len(its), got.count("\n")]},
+                                 "the ungrouped selection is the items' text forms, one per line, in order "
+                                 "(C12_results_page_text)", None))
+            return False
+        oc.count("results_pages")
     return True
 
 
@@ -258,6 +303,8 @@ def run(oc, tier, seed):
             oc.count("pages_roundtripped")
     if not stop and not any(f[3] is None for f in oc.spec_fail):
         theorem_tie(eng, rng, oc, 40 if tier == "quick" else 1500)
+        if not any(f[3] is None for f in oc.spec_fail):
+            results_tie(eng, random.Random(seed + 9), oc, 6 if tier == "quick" else 120)
     if not stop and not any(f[3] is None for f in oc.spec_fail) and not oc.corr_mismatch:
         for _ in range(n_dirs):
             if not real_pipeline(rng, oc):
